@@ -19,6 +19,14 @@
 //!    the blocks builders, the resources builders, `ResourceSet` setters,
 //!    `RequestResourceLimit::with_*` and `TbsCert`'s resource setters, each
 //!    against "union of what was pushed since the last replacing call".
+//! 5. value patterns (`asgrid.*`, `v4grid.*`, `v6grid.*`): layers 1-3 again over
+//!    domains whose points are m*2^k and m*2^k - 1 for every k the
+//!    representation singles out (k = 96: IPv4-shaped values inside IPv6),
+//!    placed at zero, in the middle and at the top of the number space; the
+//!    domains of a family share one space per layer, oracles keep the
+//!    domain's name (`C03.v6k96b.construct...`).
+//! 6. the refused issuance result (`*.refusal`): which resources the errors of
+//!    `verify_issued(Refuse)` and `verify_covered` name -- claim minus issuer.
 //!
 //! Oracle: a bitmask over the atoms the domain induces on the number space.
 //! The expected representation of a mask is computed here (maximal runs of
@@ -36,13 +44,14 @@ use rpki::ca::provisioning::RequestResourceLimit;
 use rpki::repository::cert::Overclaim;
 use rpki::repository::resources::{
     Addr, AddressFamily, AddressRange, AsBlock, AsBlocks, AsBlocksBuilder, AsResources, AsResourcesBuilder, Asn, IpBlock,
-    IpBlocks, IpBlocksBuilder, IpResources, IpResourcesBuilder, Ipv4Block, Ipv4Blocks, Ipv6Block, Ipv6Blocks, Prefix, ResourceSet,
+    IpBlocks, IpBlocksBuilder, IpResources, IpResourcesBuilder, Ipv4Block, Ipv4Blocks, Ipv6Block, Ipv6Blocks, OverclaimedIpResources, Prefix, ResourceSet,
     ResourcesChoice,
 };
+use rpki::repository::error::VerificationError;
 use rpki::repository::roa::RoaIpAddress;
 use rpki_verif::engine::der;
 use rpki_verif::engine::enumerate::{par_chunks, seq_at, seq_count};
-use rpki_verif::{guard, Ctx};
+use rpki_verif::{guard, Ctx, Space};
 use serde_json::json;
 
 const ONES96: u128 = (1u128 << 96) - 1;
@@ -94,7 +103,11 @@ struct Dom {
     ends: Vec<usize>,         // atoms that may start / end an alphabet block
     blocks: Vec<ABlock>,
     canon: Vec<Repr>,         // expected representation per mask
+    grid: Option<(&'static str, u32)>, // value-pattern domain: (group whose spaces it shares, k of its 2^k grid)
 }
+
+/// The spaces shared by the domains of a value-pattern group: one per layer for the whole group.
+static GROUP_SPACES: Mutex<BTreeMap<String, std::sync::Arc<Space>>> = Mutex::new(BTreeMap::new());
 
 fn v4_txt(x: u128) -> String { let x = x as u32; format!("{}.{}.{}.{}", x >> 24, (x >> 16) & 255, (x >> 8) & 255, x & 255) }
 
@@ -152,7 +165,7 @@ impl Dom {
 
     fn finish(name: &str, kind: Kind, atoms: Vec<(u128, u128)>, ends: Vec<usize>) -> Dom {
         assert!(atoms.len() <= 16);
-        let mut d = Dom { name: name.into(), kind, atoms, ends, blocks: Vec::new(), canon: Vec::new() };
+        let mut d = Dom { name: name.into(), kind, atoms, ends, blocks: Vec::new(), canon: Vec::new(), grid: None };
         let ne = d.ends.len();
         let mut pairs: Vec<(usize, usize)> = Vec::new();
         for a in 0..ne { for b in a..ne { pairs.push((a, b)) } }
@@ -179,6 +192,19 @@ impl Dom {
     }
 
     fn natoms(&self) -> usize { self.atoms.len() }
+
+    /// The space of one layer: the domain's own, or the one its group shares.
+    fn space(&self, ctx: &Ctx, layer: &str, rule: &str) -> std::sync::Arc<Space> {
+        match self.grid {
+            None => ctx.space(&format!("{}.{layer}", self.name), rule),
+            Some((g, _)) => GROUP_SPACES.lock().unwrap().entry(format!("{g}.{layer}"))
+                .or_insert_with(|| ctx.space(&format!("{g}.{layer}"), &format!("for EACH value-pattern domain of the group {g} (listed under {g}.construct; oracle names carry the domain's own name): {rule}"))).clone(),
+        }
+    }
+    /// Per-domain facts and the completed bound; a group's spaces get theirs once, from `finish_group`.
+    fn set(&self, sp: &Space, key: &str, v: serde_json::Value) { if self.grid.is_none() { sp.set(key, v) } }
+    fn done(&self, sp: &Space, exhaustive: bool, bound: &str) { if self.grid.is_none() { sp.done(exhaustive, bound) } }
+    fn sample(&self, sp: &Space, f: impl FnOnce() -> String) { if self.grid.is_none() { sp.sample_str(f) } }
 
     /// Maximal runs of atoms in a mask, as family-unit ranges.
     fn runs(&self, mask: u32) -> Vec<(u128, u128)> {
@@ -456,7 +482,7 @@ fn seq_witness(seq: &[&ABlock], path: &str) -> String {
 fn construct(ctx: &Ctx, dom: &Dom, max_len: u32) -> BTreeMap<u32, Val> {
     let paths: &[&str] = if dom.kind == Kind::As { AS_PATHS } else { IP_PATHS };
     let k = dom.blocks.len() as u64;
-    let sp = ctx.space(&format!("{}.construct", dom.name),
+    let sp = dom.space(ctx, "construct",
         "every sequence of <= N alphabet blocks (all pairs min<=max of the domain's end points + representative inverted pairs) x every public construction path; non-trivial = sequences that are not already the canonical block list of their set (unsorted, overlapping, adjacent, duplicate, bridging or containing an inverted block)");
     let total = seq_count(k, max_len);
     let seeds: Mutex<BTreeMap<u32, Val>> = Mutex::new(BTreeMap::new());
@@ -522,17 +548,17 @@ fn construct(ctx: &Ctx, dom: &Dom, max_len: u32) -> BTreeMap<u32, Val> {
         for (m, v) in local { g.entry(m).or_insert(v); }
     });
     let seeds = seeds.into_inner().unwrap();
-    sp.set("alphabet_blocks", json!(dom.blocks.len()));
-    sp.set("atoms", json!(dom.natoms()));
-    sp.set("paths", json!(paths));
-    sp.set("sequences", json!(total));
-    sp.set("distinct_canonical_values_reached", json!(seeds.len()));
-    sp.set("api_sequences_with_inverted_block_stored_noncanonically", json!(api_inverted_noncanonical.load(std::sync::atomic::Ordering::Relaxed)));
-    sp.sample_str(|| {
+    dom.set(&sp, "alphabet_blocks", json!(dom.blocks.len()));
+    dom.set(&sp, "atoms", json!(dom.natoms()));
+    dom.set(&sp, "paths", json!(paths));
+    dom.set(&sp, "sequences", json!(total));
+    dom.set(&sp, "distinct_canonical_values_reached", json!(seeds.len()));
+    dom.set(&sp, "api_sequences_with_inverted_block_stored_noncanonically", json!(api_inverted_noncanonical.load(std::sync::atomic::Ordering::Relaxed)));
+    dom.sample(&sp, || {
         let b: Vec<&str> = dom.blocks.iter().step_by(7).take(6).map(|b| b.txt_a.as_str()).collect();
         format!("{}: atoms {:?}; some alphabet blocks: {}", dom.name, dom.atoms.iter().map(|a| format!("{:#x}..{:#x}", a.0, a.1)).collect::<Vec<_>>(), b.join(" | "))
     });
-    sp.done(true, &format!("all {} sequences of <= {} blocks over {} blocks x {} paths", total, max_len, dom.blocks.len(), paths.len()));
+    dom.done(&sp, true, &format!("all {} sequences of <= {} blocks over {} blocks x {} paths", total, max_len, dom.blocks.len(), paths.len()));
     seeds
 }
 
@@ -656,7 +682,7 @@ struct ClosureResult { have: Vec<Option<Val>>, }
 
 /// Explicit-state BFS over the real operations; states are stored representations.
 fn closure(ctx: &Ctx, dom: &Dom, seeds: BTreeMap<u32, Val>) -> ClosureResult {
-    let sp = ctx.space(&format!("{}.closure", dom.name),
+    let sp = dom.space(ctx, "closure",
         "explicit-state BFS to fixpoint: states = stored block lists (with Id/Range resp. Prefix/Range variants) starting from every canonical value the construction layer produced; transitions = union, intersection, difference, intersection_assign, verify_issued(refuse), verify_issued(trim), RequestResourceLimit::apply_to on every ordered pair of states, plus == and contains on the pair; every result compared literally with the model's representation of the expected subset of atoms; non-trivial = ordered pairs of distinct non-empty sets that overlap partially");
     let nm = 1usize << dom.natoms();
     let mut have: Vec<Option<Val>> = vec![None; nm];
@@ -735,19 +761,19 @@ fn closure(ctx: &Ctx, dom: &Dom, seeds: BTreeMap<u32, Val>) -> ClosureResult {
     let universe = dom.blocks.iter().fold(0u32, |m, b| m | b.mask);
     let reachable = 1usize << universe.count_ones();
     let all = order.len() == reachable;
-    sp.set("seed_states", json!(seed_states));
-    sp.set("canonical_states", json!(order.len()));
-    sp.set("noncanonical_states", json!(bad.len()));
-    sp.set("subsets_of_atoms", json!(nm));
-    sp.set("subsets_of_coverable_atoms", json!(reachable));
-    sp.set("bfs_rounds", json!(rounds));
-    sp.set("fixpoint_reached", json!(true));
-    sp.set("operations", json!(OPS));
-    sp.sample_str(|| format!("{}: {} seed states -> {} states after {} rounds ({} subsets of coverable atoms)", dom.name, seed_states, order.len(), rounds, reachable));
+    dom.set(&sp, "seed_states", json!(seed_states));
+    dom.set(&sp, "canonical_states", json!(order.len()));
+    dom.set(&sp, "noncanonical_states", json!(bad.len()));
+    dom.set(&sp, "subsets_of_atoms", json!(nm));
+    dom.set(&sp, "subsets_of_coverable_atoms", json!(reachable));
+    dom.set(&sp, "bfs_rounds", json!(rounds));
+    dom.set(&sp, "fixpoint_reached", json!(true));
+    dom.set(&sp, "operations", json!(OPS));
+    dom.sample(&sp, || format!("{}: {} seed states -> {} states after {} rounds ({} subsets of coverable atoms)", dom.name, seed_states, order.len(), rounds, reachable));
     if !all && bad.is_empty() && ctx.violations_so_far() == 0 {
         ctx.machinery_error(format!("{}: closure reached only {} of {} subsets", dom.name, order.len(), reachable));
     }
-    sp.done(true, &format!("fixpoint after {} rounds: {} states, all ordered pairs x {} operations", rounds, nstates, OPS.len()));
+    dom.done(&sp, true, &format!("fixpoint after {} rounds: {} states, all ordered pairs x {} operations", rounds, nstates, OPS.len()));
     ClosureResult { have }
 }
 
@@ -789,7 +815,7 @@ fn to_prefixes(kind: Kind, lo: u128, hi: u128) -> Vec<Prefix> {
 }
 
 fn queries(ctx: &Ctx, dom: &Dom, have: &[Option<Val>]) {
-    let sp = ctx.space(&format!("{}.queries", dom.name),
+    let sp = dom.space(ctx, "queries",
         "every state of the closure x every probe: membership of both ends / second / middle value of every atom, contains_block / intersects_block / contains over all probe blocks, contains_roa over prefixes around the probe values, asn_count, iter_asns, range-to-prefix decomposition of every stored block, Display->FromStr, serde and DER round trips; non-trivial = (state, probe) pairs where the probe touches both members and non-members of the set, or a round trip of a non-empty set");
     let k = dom.kind;
     let pts = probe_points(dom);
@@ -798,7 +824,10 @@ fn queries(ctx: &Ctx, dom: &Dom, have: &[Option<Val>]) {
     let mut roa: Vec<(u128, u8)> = Vec::new();
     if k.is_ip() {
         let w = k.width() as u8;
-        for &x in &pts { for l in [w, w - 1, w - 2, w - 3, w - 4, w / 2, 3, 2, 1, 0] {
+        let mut lens = vec![w, w - 1, w - 2, w - 3, w - 4, w / 2, 3, 2, 1, 0];
+        // a domain on the 2^k grid: the prefix lengths whose boundaries are the grid's points
+        if let Some((_, gk)) = dom.grid { let l = (k.width() - gk) as u8; lens.extend([l + 1, l, l - 1, l - 2]) }
+        for &x in &pts { for &l in &lens {
             let keep = (if l == 0 { 0 } else { u128::MAX << (k.width() - l as u32) }) & k.fam_max();
             roa.push((x & keep, l));
         } }
@@ -1005,12 +1034,12 @@ fn queries(ctx: &Ctx, dom: &Dom, have: &[Option<Val>]) {
             if ok { sp.outcome(if prefix_len(lo, hi, 128).is_some() { "range-is-one-prefix" } else { "range-needs-several-prefixes" }) }
         }
     }
-    sp.set("states_queried", json!(states.len()));
-    sp.set("probe_values", json!(pts.len()));
-    sp.set("probe_blocks", json!(qblocks.len()));
-    sp.set("roa_prefixes", json!(roa.len()));
-    sp.sample_str(|| format!("{}: probes {}", dom.name, pts.iter().take(8).map(|x| dom.addr_txt(*x)).collect::<Vec<_>>().join(" ")));
-    sp.done(true, &format!("{} states x ({} values + {} blocks + {} prefixes + round trips)", states.len(), pts.len(), qblocks.len(), roa.len()));
+    dom.set(&sp, "states_queried", json!(states.len()));
+    dom.set(&sp, "probe_values", json!(pts.len()));
+    dom.set(&sp, "probe_blocks", json!(qblocks.len()));
+    dom.set(&sp, "roa_prefixes", json!(roa.len()));
+    dom.sample(&sp, || format!("{}: probes {}", dom.name, pts.iter().take(8).map(|x| dom.addr_txt(*x)).collect::<Vec<_>>().join(" ")));
+    dom.done(&sp, true, &format!("{} states x ({} values + {} blocks + {} prefixes + round trips)", states.len(), pts.len(), qblocks.len(), roa.len()));
 }
 
 //------------ value -> form -> value for the certificate resource extensions --------------------------
@@ -1019,7 +1048,7 @@ fn queries(ctx: &Ctx, dom: &Dom, have: &[Option<Val>]) {
 /// they have and back; afterwards the value must be ==, report the same shape and blocks, and
 /// verify_issued / verify_covered must give the model's answers.
 fn choice_forms(ctx: &Ctx, dom: &Dom, have: &[Option<Val>]) {
-    let sp = ctx.space(&format!("{}.choice_forms", dom.name),
+    let sp = dom.space(ctx, "choice_forms",
         "AsResources / IpResources: {missing, inherit, blocks(every non-empty state)} x forms (AS: Display->FromStr, serde JSON, DER; IP: DER inside an IPAddrBlocks with the other family inherited) and back: == the original, same is_inherited / is_present / to_blocks, and for every probe issuer (empty, everything, every single atom, every complement of one atom) verify_issued(refuse), verify_issued(trim) and verify_covered answer as the model says; non-trivial = (value, form) pairs of the missing and inherit shapes and of blocks that are not contained in some probe issuer");
     let k = dom.kind;
     let universe = dom.blocks.iter().fold(0u32, |m, b| m | b.mask);
@@ -1127,9 +1156,140 @@ fn choice_forms(ctx: &Ctx, dom: &Dom, have: &[Option<Val>]) {
         }
         sp.evals(evals); sp.nontrivial(nontriv); sp.merge_outcomes(&oc);
     });
-    sp.set("shapes", json!(shapes.len())); sp.set("probe_issuers", json!(probes.len()));
-    sp.sample_str(|| format!("{}: probe issuers {}", dom.name, probes.iter().take(4).map(|m| dom.show_mask(*m)).collect::<Vec<_>>().join(" ")));
-    sp.done(true, &format!("{} shapes x forms x {} probe issuers x (refuse, trim, covered)", shapes.len(), probes.len()));
+    dom.set(&sp, "shapes", json!(shapes.len())); dom.set(&sp, "probe_issuers", json!(probes.len()));
+    dom.sample(&sp, || format!("{}: probe issuers {}", dom.name, probes.iter().take(4).map(|m| dom.show_mask(*m)).collect::<Vec<_>>().join(" ")));
+    dom.done(&sp, true, &format!("{} shapes x forms x {} probe issuers x (refuse, trim, covered)", shapes.len(), probes.len()));
+}
+
+//------------ the refused issuance result: which resources the refusal names --------------------------------
+
+fn parse_blocks(kind: Kind, t: &str) -> Result<Val, String> {
+    match kind {
+        Kind::As => AsBlocks::from_str(t).map(Val::As).map_err(|e| e.to_string()),
+        Kind::V4 => Ipv4Blocks::from_str(t).map(|x| Val::Ip((*x).clone())).map_err(|e| e.to_string()),
+        Kind::V6 => Ipv6Blocks::from_str(t).map(|x| Val::Ip((*x).clone())).map_err(|e| e.to_string()),
+    }
+}
+
+#[derive(PartialEq)]
+enum Named { Canonical, OtherSpelling, NoSet }
+
+/// An overclaim message reads "overclaimed <family> resources: <blocks>". Judges the blocks it names
+/// against the model's `claim minus issuer` (`want`, printed `want_txt`): the canonical text, or any
+/// text that parses (FromStr of the family) to the same set. A message without a ": " part names
+/// nothing and is only counted.
+fn judge_named(kind: Kind, msg: &str, want_txt: &str, want: &[Blk]) -> Result<Named, String> {
+    let Some((_, t)) = msg.split_once(": ") else { return Ok(Named::NoSet) };
+    if t == want_txt { return Ok(Named::Canonical) }
+    match parse_blocks(kind, t) {
+        Ok(v) if denoted(&repr_of(&v)) == denoted(want) => Ok(Named::OtherSpelling),
+        Ok(_) => Err(format!("the refusal says {msg:?}; the claimed resources the issuer does not hold are {want_txt:?}")),
+        Err(e) => Err(format!("the refusal says {msg:?}, whose resources do not parse ({e}); the claimed resources the issuer does not hold are {want_txt:?}")),
+    }
+}
+
+/// Both refusing entry points on one (issuer, claim) pair of block collections: the verdicts, and the
+/// texts of the two errors (the family's rendering, and the same error turned into a VerificationError).
+struct Refusal { issued: Result<Val, (String, String)>, covered: Result<(), (String, String)> }
+
+fn refuse_pair(kind: Kind, issuer: &Val, claim: &Val) -> Refusal {
+    match (issuer, claim) {
+        (Val::As(i), Val::As(c)) => Refusal {
+            issued: i.verify_issued(&AsResources::blocks(c.clone()), Overclaim::Refuse).map(Val::As).map_err(|e| (e.to_string(), VerificationError::from(e).to_string())),
+            covered: c.verify_covered(&AsResources::blocks(i.clone())).map_err(|e| (e.to_string(), VerificationError::from(e).to_string())),
+        },
+        (Val::Ip(i), Val::Ip(c)) => {
+            let txt = |e: OverclaimedIpResources| if kind == Kind::V4 { (e.clone().v4().to_string(), VerificationError::from(e.v4()).to_string()) } else { (e.clone().v6().to_string(), VerificationError::from(e.v6()).to_string()) };
+            Refusal {
+                issued: i.verify_issued(&IpResources::blocks(c.clone()), Overclaim::Refuse).map(Val::Ip).map_err(txt),
+                covered: c.verify_covered(&IpResources::blocks(i.clone())).map_err(txt),
+            }
+        }
+        _ => unreachable!(),
+    }
+}
+
+/// verify_covered of a claim by an issuer certificate that has no such extension / inherits it.
+fn covered_by_shape(kind: Kind, claim: &Val, inherit: bool) -> Result<(), (String, String)> {
+    match claim {
+        Val::As(c) => c.verify_covered(&if inherit { AsResources::inherit() } else { AsResources::missing() }).map_err(|e| (e.to_string(), VerificationError::from(e).to_string())),
+        Val::Ip(c) => c.verify_covered(&if inherit { IpResources::inherit() } else { IpResources::missing() })
+            .map_err(|e| if kind == Kind::V4 { (e.clone().v4().to_string(), VerificationError::from(e.v4()).to_string()) } else { (e.clone().v6().to_string(), VerificationError::from(e.v6()).to_string()) }),
+    }
+}
+
+/// The refused issuance result. `verify_issued(.., Refuse)` (top-down) and `verify_covered` (bottom-up)
+/// refuse with an error whose text names the overclaimed resources; those must be the claimed
+/// resources the issuer does not hold, through either entry point.
+fn refusals(ctx: &Ctx, dom: &Dom, have: &[Option<Val>]) {
+    let sp = dom.space(ctx, "refusal",
+        "ordered pairs (issuer, claim) of states of the closure -- all pairs where the domain has at most 256 states or the tier is thorough, otherwise all pairs in which the issuer or the claim is a probe state (empty, everything, a single atom, the complement of one) -- through issuer.verify_issued(blocks(claim), Refuse) and claim.verify_covered(blocks(issuer)), plus every claim against an issuer without the extension (missing) and an inheriting one through verify_covered: refused iff the claim is not a subset of the issuer; an accepted verify_issued returns the claim; the text of the refusal (OverclaimedAsResources, OverclaimedIpResources::v4 / v6 as the family says) names, after its \": \", exactly the set claim minus issuer (canonical text, or any text that parses to that set); both entry points word it identically; the VerificationError made from the error carries the same text; non-trivial = refused pairs in which issuer and claim overlap partially, so that claim, claim minus issuer and issuer minus claim are three different sets");
+    let k = dom.kind;
+    let states: Vec<u32> = (0..have.len() as u32).filter(|m| have[*m as usize].is_some()).collect();
+    let universe = dom.blocks.iter().fold(0u32, |m, b| m | b.mask);
+    let all_pairs = states.len() <= 256 || ctx.tier.is_thorough();
+    let mut probe = vec![false; have.len()];
+    for &m in &states { let c = universe & !m; if m == 0 || c == 0 || m.count_ones() == 1 || c.count_ones() == 1 { probe[m as usize] = true } }
+    let txt: Vec<String> = (0..have.len() as u32).map(|m| dom.runs(m).into_iter().map(|(x, y)| dom.block_txt(x, y, true)).collect::<Vec<_>>().join(", ")).collect();
+    let pfx = format!("C03.{}.refusal", dom.name);
+    let npairs = std::sync::atomic::AtomicU64::new(0);
+    states.par_iter().for_each(|&mc| {
+        let claim = have[mc as usize].as_ref().unwrap();
+        let mut oc: BTreeMap<&'static str, u64> = BTreeMap::new();
+        let (mut evals, mut nontriv, mut pairs) = (0u64, 0u64, 0u64);
+        let named = |oc: &mut BTreeMap<&'static str, u64>, via: &str, wit: &dyn Fn(&str) -> String, texts: &(String, String), over: u32| {
+            match judge_named(k, &texts.0, &txt[over as usize], &dom.canon[over as usize]) {
+                Ok(n) => { *oc.entry(match n { Named::Canonical => if over == mc { "refused:names-the-whole-claim" } else { "refused:names-part-of-the-claim" }, Named::OtherSpelling => "refused:names-the-set-in-another-spelling", Named::NoSet => "refused:message-names-no-set(observed-only)" }).or_insert(0) += 1; }
+                Err(d) => ctx.fail(&format!("{pfx}.{via}.names"), wit(via), d),
+            }
+            if !texts.1.contains(texts.0.as_str()) { ctx.fail(&format!("{pfx}.{via}.verification_error"), wit(via), format!("the error says {:?}, the VerificationError made from it {:?}", texts.0, texts.1)) }
+        };
+        // issuers that are not block collections
+        for inherit in [false, true] {
+            evals += 1;
+            let wit = |via: &str| format!("issuer={} claim={} via={via}", if inherit { "inherit" } else { "missing" }, dom.show_mask(mc));
+            match guard(|| covered_by_shape(k, claim, inherit)) {
+                Err(p) => ctx.fail(&format!("{pfx}.verify_covered.panic"), wit("verify_covered"), p),
+                Ok(r) => {
+                    let want_ok = inherit || mc == 0;
+                    if r.is_ok() != want_ok { ctx.fail(&format!("{pfx}.verify_covered.verdict"), wit("verify_covered"), format!("{}, the model {}", if r.is_ok() { "accepted" } else { "refused" }, if want_ok { "accepts" } else { "refuses" })) }
+                    match r { Ok(()) => { *oc.entry(if inherit { "accepted:issuer-inherits" } else { "accepted:nothing-claimed" }).or_insert(0) += 1; } Err(t) => named(&mut oc, "verify_covered", &wit, &t, mc) }
+                }
+            }
+        }
+        for &mi in &states {
+            if !all_pairs && !probe[mc as usize] && !probe[mi as usize] { continue }
+            let issuer = have[mi as usize].as_ref().unwrap();
+            pairs += 1; evals += 2;
+            let over = mc & !mi;
+            let wit = |via: &str| format!("issuer={} claim={} via={via}", dom.show_mask(mi), dom.show_mask(mc));
+            if over != 0 && mc & mi != 0 && mi & !mc != 0 { nontriv += 1 }
+            match guard(|| refuse_pair(k, issuer, claim)) {
+                Err(p) => ctx.fail(&format!("{pfx}.panic"), wit("both"), p),
+                Ok(r) => {
+                    match &r.issued {
+                        Ok(v) => { if over != 0 { ctx.fail(&format!("{pfx}.verify_issued.verdict"), wit("verify_issued"), "accepted although the claim is not a subset of the issuer".to_string()) }
+                            else if !same(v, &dom.canon[mc as usize]) { ctx.fail(&format!("{pfx}.verify_issued.verdict"), wit("verify_issued"), format!("accepted, returning {} instead of the claim", dom.show_repr(&repr_of(v)))) }
+                            else { *oc.entry("accepted").or_insert(0) += 1; } }
+                        Err(t) => { if over == 0 { ctx.fail(&format!("{pfx}.verify_issued.verdict"), wit("verify_issued"), format!("refused ({:?}) although the claim is a subset of the issuer", t.0)) } else { named(&mut oc, "verify_issued", &wit, t, over) } }
+                    }
+                    match &r.covered {
+                        Ok(()) => { if over != 0 { ctx.fail(&format!("{pfx}.verify_covered.verdict"), wit("verify_covered"), "accepted although the claim is not a subset of the issuer".to_string()) } else { *oc.entry("accepted").or_insert(0) += 1; } }
+                        Err(t) => { if over == 0 { ctx.fail(&format!("{pfx}.verify_covered.verdict"), wit("verify_covered"), format!("refused ({:?}) although the claim is a subset of the issuer", t.0)) } else { named(&mut oc, "verify_covered", &wit, t, over) } }
+                    }
+                    if let (Err(a), Err(b)) = (&r.issued, &r.covered) { if a.0 != b.0 { ctx.fail(&format!("{pfx}.entry_points_agree"), wit("both"), format!("verify_issued refuses with {:?}, verify_covered with {:?}", a.0, b.0)) } }
+                }
+            }
+        }
+        npairs.fetch_add(pairs, std::sync::atomic::Ordering::Relaxed);
+        sp.evals(evals); sp.nontrivial(nontriv); sp.merge_outcomes(&oc);
+    });
+    let npairs = npairs.load(std::sync::atomic::Ordering::Relaxed);
+    dom.set(&sp, "states", json!(states.len())); dom.set(&sp, "pairs", json!(npairs)); dom.set(&sp, "all_pairs", json!(all_pairs));
+    dom.sample(&sp, || { let (i, c) = (states[states.len() / 3], states[2 * states.len() / 3]);
+        let r = refuse_pair(k, have[i as usize].as_ref().unwrap(), have[c as usize].as_ref().unwrap());
+        format!("{}: issuer {} claim {} -> verify_covered: {}", dom.name, dom.show_mask(i), dom.show_mask(c), match r.covered { Ok(()) => "accepted".to_string(), Err(t) => t.0 }) });
+    dom.done(&sp, true, &format!("{} ordered pairs of {} states ({}) x 2 entry points + {} claims x (missing, inheriting) issuer", npairs, states.len(), if all_pairs { "all pairs" } else { "pairs with a probe state" }, states.len()));
 }
 
 //------------ alternative constructors and mutators of single blocks ------------------------------------
@@ -1137,7 +1297,7 @@ fn choice_forms(ctx: &Ctx, dom: &Dom, have: &[Option<Val>]) {
 /// Every probe block through the family-specific text constructors and through set_min / set_max:
 /// each must give what the already checked sibling gives for the same input.
 fn api_variants(ctx: &Ctx, dom: &Dom) {
-    let sp = ctx.space(&format!("{}.block_variants", dom.name),
+    let sp = dom.space(ctx, "block_variants",
         "every block between two probe values (and every inverted alphabet block, as text) through AddressRange / Prefix / Addr ::from_v4_str / from_v6_str / from_str, compared with IpBlock::from_v4_str / from_v6_str and with the values put in; every (block, probe value) through set_min and set_max: a new bound inside the block's other bound must give exactly the block constructed directly (also after collecting it), a bound beyond it is counted (documented panic); non-trivial = mutations that change the block");
     let k = dom.kind;
     let pts = probe_points(dom);
@@ -1227,9 +1387,9 @@ fn api_variants(ctx: &Ctx, dom: &Dom) {
         } }
         sp.evals(evals); sp.nontrivial(nontriv); sp.merge_outcomes(&oc);
     });
-    sp.set("blocks", json!(blocks.len())); sp.set("probe_values", json!(pts.len()));
-    sp.sample_str(|| format!("{}: {} blocks x {} new bounds x (set_min, set_max)", dom.name, blocks.len(), pts.len()));
-    sp.done(true, &format!("all {} probe blocks x {} probe values x 2 mutators, plus all text constructors", blocks.len(), pts.len()));
+    dom.set(&sp, "blocks", json!(blocks.len())); dom.set(&sp, "probe_values", json!(pts.len()));
+    dom.sample(&sp, || format!("{}: {} blocks x {} new bounds x (set_min, set_max)", dom.name, blocks.len(), pts.len()));
+    dom.done(&sp, true, &format!("all {} probe blocks x {} probe values x 2 mutators, plus all text constructors", blocks.len(), pts.len()));
 }
 
 //------------ iterators the library hands out ---------------------------------------------------------------
@@ -1266,7 +1426,7 @@ fn iter_sequences<I: Iterator, P: PartialEq + std::fmt::Debug>(mk: &dyn Fn() -> 
 }
 
 fn handed_out(ctx: &Ctx, dom: &Dom, have: &[Option<Val>]) {
-    let sp = ctx.space(&format!("{}.handed_out", dom.name),
+    let sp = dom.space(ctx, "handed_out",
         "iterators the library returns -- AsBlocks::iter, iter_asns, AsBlock::iter / into_iter, IpBlocks::iter, to_v4_prefixes / to_v6_prefixes -- on the probe states (empty, everything, every single atom, every complement of one atom; iter_asns only where the set is small): every sequence of <= 3 calls out of next, nth(0), nth(1), nth(3), size_hint, count, last, drop, followed by collecting the rest, against the reference item list; non-trivial = sequences that mix at least two different calls");
     let k = dom.kind;
     let universe = dom.blocks.iter().fold(0u32, |m, b| m | b.mask);
@@ -1307,9 +1467,9 @@ fn handed_out(ctx: &Ctx, dom: &Dom, have: &[Option<Val>]) {
             }
         }
     });
-    sp.set("probe_states", json!(probes.len())); sp.set("calls", json!(format!("{IT_OPS:?}")));
-    sp.sample_str(|| format!("{}: {} probe states x {} call sequences per iterator", dom.name, probes.len(), 1 + 8 + 64 + 512));
-    sp.done(true, &format!("{} probe states x every iterator x all call sequences of length <= 3 over {} calls", probes.len(), IT_OPS.len()));
+    dom.set(&sp, "probe_states", json!(probes.len())); dom.set(&sp, "calls", json!(format!("{IT_OPS:?}")));
+    dom.sample(&sp, || format!("{}: {} probe states x {} call sequences per iterator", dom.name, probes.len(), 1 + 8 + 64 + 512));
+    dom.done(&sp, true, &format!("{} probe states x every iterator x all call sequences of length <= 3 over {} calls", probes.len(), IT_OPS.len()));
 }
 
 //------------ parameters of the call rather than of the value ----------------------------------------------
@@ -1317,7 +1477,7 @@ fn handed_out(ctx: &Ctx, dom: &Dom, have: &[Option<Val>]) {
 /// Display with width / alignment / fill / zero / alternate specs: the text, trimmed of the padding,
 /// must still parse back to the value.
 fn display_params(ctx: &Ctx, dom: &Dom, have: &[Option<Val>]) {
-    let sp = ctx.space(&format!("{}.display_params", dom.name),
+    let sp = dom.space(ctx, "display_params",
         "every state of the closure printed with the format specs {} (default), {:>3}, {:>48}, {:<48}, {:^48}, {:*^48}, {:048}, {:#}: after trimming the fill characters from both ends the text must parse back (FromStr of the same type) to the same stored blocks; non-trivial = specs other than the default on non-empty sets");
     let pfx = format!("C03.{}.display_params", dom.name);
     let states: Vec<u32> = (0..have.len() as u32).filter(|m| have[*m as usize].is_some()).collect();
@@ -1341,7 +1501,7 @@ fn display_params(ctx: &Ctx, dom: &Dom, have: &[Option<Val>]) {
                 match back { Ok(x) if same(&x, want) => Ok(()), Ok(x) => Err(format!("printed as {t:?}; that parses back as {}", dom.show_repr(&repr_of(&x)))), Err(e) => Err(format!("printed as {t:?}; that does not parse back: {e}")) } });
         }
     });
-    sp.done(true, &format!("{} states x 8 format specs", states.len()));
+    dom.done(&sp, true, &format!("{} states x 8 format specs", states.len()));
 }
 
 //------------ BER-only spellings of the RFC 3779 bit strings ----------------------------------------
@@ -1444,7 +1604,7 @@ fn ber_decode(kind: Kind, dec: usize, mode: Mode, items_seq: &[u8], form: u8) ->
 /// The decode-mode dimension: every alphabet block in every BER spelling of its bit strings,
 /// alone and next to every other block, through the public decoders in BER and DER mode.
 fn ber_spellings(ctx: &Ctx, dom: &Dom) {
-    let sp = ctx.space(&format!("{}.ber", dom.name),
+    let sp = dom.space(ctx, "ber",
         "every proper alphabet block x every spelling of its IPAddress / IPAddressRange bit strings (unused bits of the last octet set to every pattern, for the prefix and for each range end; long and indefinite length forms of the bit string, the range and the enclosing sequences; constructed bit strings with one and two segments) x 3 public decoders x {BER, DER} mode, plus every ordered pair (block with all-one unused bits, other block) in BER mode; accepted => the stored value must be literally the model's representation of the zero-padded spelling, rejected => counted only; non-trivial = spellings that are not the DER spelling");
     let k = dom.kind;
     let proper: Vec<&ABlock> = dom.blocks.iter().filter(|b| !b.inverted).collect();
@@ -1492,11 +1652,11 @@ fn ber_spellings(ctx: &Ctx, dom: &Dom) {
         }
         sp.evals(evals); sp.nontrivial(nontriv); sp.merge_outcomes(&oc);
     });
-    sp.set("blocks", json!(proper.len()));
-    sp.set("decoders", json!(BER_DECODERS));
-    sp.sample_str(|| { let b = proper.iter().find(|b| prefix_len(b.lo, b.hi, k.width()).map(|l| l % 8 != 0).unwrap_or(false)).unwrap_or(&proper[0]);
+    dom.set(&sp, "blocks", json!(proper.len()));
+    dom.set(&sp, "decoders", json!(BER_DECODERS));
+    dom.sample(&sp, || { let b = proper.iter().find(|b| prefix_len(b.lo, b.hi, k.width()).map(|l| l % 8 != 0).unwrap_or(false)).unwrap_or(&proper[0]);
         let it = item_spellings(dom, b); format!("{}: block {} has {} spellings, e.g. {}", dom.name, b.txt_a, it.len(), it.iter().filter(|x| x.1).take(2).map(|x| rpki_verif::hex(&x.0)).collect::<Vec<_>>().join(" ")) });
-    sp.done(true, &format!("all spellings of all {} proper blocks x {} decoders x 2 modes + all ordered pairs with a patterned block", proper.len(), BER_DECODERS.len()));
+    dom.done(&sp, true, &format!("all spellings of all {} proper blocks x {} decoders x 2 modes + all ordered pairs with a patterned block", proper.len(), BER_DECODERS.len()));
 }
 
 /// `Prefix::from_bit_string` / `Prefix::take_from` on hand-built bit strings of every length.
@@ -1597,15 +1757,27 @@ fn iv_repr(kind: Kind, a: &Iv) -> Repr {
     }).collect()
 }
 
+/// The canonical text of an interval set (single item, prefix where it is one, else a range).
+fn iv_txt(kind: Kind, a: &Iv) -> String {
+    a.iter().map(|&(lo, hi)| match kind {
+        Kind::As => if lo == hi { format!("AS{lo}") } else { format!("AS{lo}-AS{hi}") },
+        k => if lo == hi { kind_addr_txt(k, lo) } else if let Some(l) = prefix_len(lo, hi, k.width()) { format!("{}/{}", kind_addr_txt(k, lo), l) } else { format!("{}-{}", kind_addr_txt(k, lo), kind_addr_txt(k, hi)) },
+    }).collect::<Vec<_>>().join(", ")
+}
+
 fn kind_addr_txt(kind: Kind, x: u128) -> String { match kind { Kind::As => format!("AS{x}"), Kind::V4 => v4_txt(x), Kind::V6 => Ipv6Addr::from(x).to_string() } }
 fn kind_block_txt(kind: Kind, lo: u128, hi: u128) -> String { if lo == hi { kind_addr_txt(kind, lo) } else { format!("{}-{}", kind_addr_txt(kind, lo), kind_addr_txt(kind, hi)) } }
 
-const FAMILIES: &[&str] = &["singles", "aligned-pairs", "triples", "irregular", "irregular-at-top", "thinned-singles", "aligned-256"];
+const FAMILIES: &[&str] = &["singles", "aligned-pairs", "triples", "irregular", "irregular-at-top", "thinned-singles", "aligned-256", "grid-singles", "grid-pairs", "grid-ones"];
+
+/// The step of the value-pattern families: 2^96 (IPv4-shaped values) for IPv6, 2^16 for IPv4 and AS.
+fn grid_step(kind: Kind) -> u128 { if kind == Kind::V6 { 1 << 96 } else { 1 << 16 } }
 
 /// The i-th structured family with n blocks (all disjoint and non-adjacent by construction):
 /// singles {2i}; aligned-pairs [4i,4i+1]; triples [4i+1,4i+3]; irregular: from 5, width 1+(i%3)+(i%2),
 /// gap 1+(7i%5); irregular-at-top: the same from 0, mirrored so that it ends at MAX; thinned-singles:
-/// the singles with every third one missing; aligned-256 [256i, 256i+127].
+/// the singles with every third one missing; aligned-256 [256i, 256i+127]; grid-singles {(i+1)S};
+/// grid-pairs [4iS, (4i+1)S]; grid-ones [(4i+1)S-1, (4i+2)S-1] with S = 2^96 (IPv6) resp. 2^16.
 fn family(kind: Kind, f: usize, n: usize) -> Iv {
     let n = n as u128;
     let irregular = |start: u128| { let mut v = Vec::new(); let mut c = start; for i in 0..n { let w = 1 + (i % 3) + (i % 2); v.push((c, c + w - 1)); c += w + 1 + (7 * i % 5) } v };
@@ -1616,7 +1788,12 @@ fn family(kind: Kind, f: usize, n: usize) -> Iv {
         3 => irregular(5),
         4 => { let m = kind.fam_max(); let mut v: Iv = irregular(0).into_iter().map(|(a, b)| (m - b, m - a)).collect(); v.reverse(); v }
         5 => (0..n).map(|i| { let j = i + i / 2; (2 * j, 2 * j) }).collect(),
-        _ => (0..n).map(|i| (256 * i, 256 * i + 127)).collect(),
+        6 => (0..n).map(|i| (256 * i, 256 * i + 127)).collect(),
+        // the value patterns, S = grid_step: single multiples of S; ranges whose two bounds are both
+        // multiples of S; ranges whose two bounds are both one below a multiple of S
+        7 => { let s = grid_step(kind); (0..n).map(|i| ((i + 1) * s, (i + 1) * s)).collect() }
+        8 => { let s = grid_step(kind); (0..n).map(|i| (4 * i * s, (4 * i + 1) * s)).collect() }
+        _ => { let s = grid_step(kind); (0..n).map(|i| ((4 * i + 1) * s - 1, (4 * i + 2) * s - 1)).collect() }
     }
 }
 
@@ -1665,7 +1842,7 @@ fn scale(ctx: &Ctx, kind: Kind, name: &str) {
     let counts = block_counts();
     let max = kind.fam_max();
     let sp = ctx.space(&format!("{name}.scale.sets"),
-        "number of blocks n in 0..=40, 63..65, 127..129, 255..257, 1023..1025 (all in both tiers) x 7 structured families (singles {2i}; aligned pairs [4i,4i+1]; triples [4i+1,4i+3]; irregular widths 1+(i%3)+(i%2) and gaps 1+(7i%5) from 5; the same mirrored so that it ends at MAX; singles with every third missing; aligned [256i,256i+127]) x construction (FromIterator sorted / reversed / evens-then-odds, FromStr, DER from the independent encoder) compared literally with the interval model's canonical blocks; then, on every set: membership at the first, last and middle number of every block, one below and above it, the middle of every gap, 0 and MAX (contains_asn, ResourceSet::contains_asn, contains of a one-number set; contains_block / intersects_block / contains_roa / contains_roa_address of the single address); per block: the block itself, the block widened by one, the gap after it, the bridge to the next block (contains_block, intersects_block, contains; contains_roa of the block's prefix and its parent); iter_asns compared item by item; range-to-prefix decomposition of every stored block; Display->FromStr and DER round trips; non-trivial = probes on sets of 17 or more blocks");
+        "number of blocks n in 0..=40, 63..65, 127..129, 255..257, 1023..1025 (all in both tiers) x 10 structured families (singles {2i}; aligned pairs [4i,4i+1]; triples [4i+1,4i+3]; irregular widths 1+(i%3)+(i%2) and gaps 1+(7i%5) from 5; the same mirrored so that it ends at MAX; singles with every third missing; aligned [256i,256i+127]; and on the grid S = 2^96 (IPv6: IPv4-shaped values) resp. 2^16 (IPv4, AS): single multiples {(i+1)S}, ranges between two multiples [4iS,(4i+1)S], ranges between two values one below a multiple [(4i+1)S-1,(4i+2)S-1]) x construction (FromIterator sorted / reversed / evens-then-odds, FromStr, DER from the independent encoder) compared literally with the interval model's canonical blocks; then, on every set: membership at the first, last and middle number of every block, one below and above it, the middle of every gap, 0 and MAX (contains_asn, ResourceSet::contains_asn, contains of a one-number set; contains_block / intersects_block / contains_roa / contains_roa_address of the single address); per block: the block itself, the block widened by one, the gap after it, the bridge to the next block (contains_block, intersects_block, contains; contains_roa of the block's prefix and its parent); iter_asns compared item by item; range-to-prefix decomposition of every stored block; Display->FromStr and DER round trips; non-trivial = probes on sets of 17 or more blocks");
     let work: Vec<(usize, usize)> = counts.iter().flat_map(|&n| (0..FAMILIES.len()).map(move |f| (n, f))).collect();
     let pfx = format!("C03.{name}.scale");
     let values: Vec<Option<(Iv, Val)>> = work.par_iter().map(|&(n, f)| {
@@ -1762,12 +1939,14 @@ fn scale(ctx: &Ctx, kind: Kind, name: &str) {
         match &v {
             Val::As(b) => {
                 ctx.check(&format!("{pfx}.iter_asns"), || id.clone(), || {
+                    let total: u128 = iv.iter().map(|r| r.1 - r.0 + 1).sum();
+                    if total <= u32::MAX as u128 && b.asn_count() as u128 != total { return Err(format!("asn_count returned {}, the set has {total} members", b.asn_count())) }
+                    // item by item up to 2^21 members (the grid families with many blocks have more; their blocks are iterated in as.scale.iteration)
+                    if total > 1 << 21 { return Ok(()) }
                     let mut model = iv.iter().flat_map(|&(a, c)| (a as u32)..=(c as u32));
                     let mut k = 0u64;
                     for got in b.iter_asns() { match model.next() { Some(w) if w == got.into_u32() => k += 1, other => return Err(format!("item {k} is {got}, the model has {other:?}")) } }
                     if let Some(w) = model.next() { return Err(format!("iter_asns ends after {k} items, the model continues with AS{w}")) }
-                    let total: u128 = iv.iter().map(|r| r.1 - r.0 + 1).sum();
-                    if total <= u32::MAX as u128 && b.asn_count() as u128 != total { return Err(format!("asn_count returned {}, the set has {total} members", b.asn_count())) }
                     Ok(()) });
             }
             Val::Ip(b) => {
@@ -1791,7 +1970,7 @@ fn scale(ctx: &Ctx, kind: Kind, name: &str) {
 
     // operations between the families of one block count
     let sp = ctx.space(&format!("{name}.scale.ops"),
-        "for every block count (as above) every ordered pair of the 7 structured families of that count: union, intersection, difference, intersection_assign, verify_issued(refuse), verify_issued(trim), RequestResourceLimit::apply_to, == and contains, each result compared literally with the interval model; non-trivial = pairs of different families with 17 or more blocks");
+        "for every block count (as above) every ordered pair of the 10 structured families of that count: union, intersection, difference, intersection_assign, verify_issued(refuse), verify_issued(trim), RequestResourceLimit::apply_to, == and contains, each result compared literally with the interval model; where b is not contained in a, the refusals of a.verify_issued(b) and b.verify_covered(a) must name exactly b minus a (see the refusal spaces); non-trivial = pairs of different families with 17 or more blocks");
     let nf = FAMILIES.len();
     let pairs: Vec<(usize, usize, usize)> = (0..counts.len()).flat_map(|c| (0..nf * nf).map(move |p| (c, p / nf, p % nf))).collect();
     let pfx = format!("C03.{name}.scale.ops");
@@ -1819,6 +1998,24 @@ fn scale(ctx: &Ctx, kind: Kind, name: &str) {
                 },
             }
         }
+        if !sub {
+            let over = iv_diff(ib, ia, max);
+            let (want_txt, want) = (iv_txt(kind, &over), iv_repr(kind, &over));
+            match guard(|| refuse_pair(kind, a, b)) {
+                Err(p) => ctx.fail(&format!("{pfx}.refusal.panic"), wit("refusal"), p),
+                Ok(r) => {
+                    let texts = [("verify_issued", r.issued.err()), ("verify_covered", r.covered.err())];
+                    for (via, t) in &texts { match t {
+                        None => ctx.fail(&format!("{pfx}.refusal.{via}.verdict"), wit(via), "accepted although b is not contained in a".to_string()),
+                        Some(t) => match judge_named(kind, &t.0, &want_txt, &want) {
+                            Ok(_) => { *oc.entry("refusal-names-b-minus-a").or_insert(0) += 1; }
+                            Err(_) => ctx.fail(&format!("{pfx}.refusal.{via}.names"), wit(via), format!("the refusal names {} where the model has the {} blocks of b minus a starting {}", rpki_verif::trunc(&t.0, 120), over.len(), rpki_verif::trunc(&want_txt, 80))),
+                        },
+                    } }
+                    if let (Some(x), Some(y)) = (&texts[0].1, &texts[1].1) { if x.0 != y.0 { ctx.fail(&format!("{pfx}.refusal.entry_points_agree"), wit("refusal"), "verify_issued and verify_covered word the refusal differently".to_string()) } }
+                }
+            }
+        }
         match guard(|| (val_eq(a, b), val_contains(a, b))) {
             Err(p) => ctx.fail(&format!("{pfx}.pair_query.panic"), wit("eq/contains"), p),
             Ok((e, cn)) => {
@@ -1826,7 +2023,7 @@ fn scale(ctx: &Ctx, kind: Kind, name: &str) {
                 if cn != sub { ctx.fail(&format!("{pfx}.contains"), wit("contains"), format!("a.contains(b) returned {cn}")) }
             }
         }
-        sp.evals(OPS.len() as u64 + 2); if f != g && n >= 17 { sp.nontrivial(1) } sp.merge_outcomes(&oc);
+        sp.evals(OPS.len() as u64 + 2 + if sub { 0 } else { 2 }); if f != g && n >= 17 { sp.nontrivial(1) } sp.merge_outcomes(&oc);
     });
     sp.done(true, &format!("{} block counts x {} ordered pairs of families x {} operations", counts.len(), nf * nf, OPS.len() + 2));
 }
@@ -3138,11 +3335,63 @@ fn boundary(kind: Kind, lows: u128, highs: u128) -> Vec<u128> {
     v
 }
 
+/// The k that the representation singles out, per family: octet / hextet boundaries of the text and
+/// of the DER bit strings, the sign and length boundaries of DER integers (AS), the 32-bit IPv4 part
+/// of the shared 128-bit `Addr` (k = 96) and the halves and quarters of an IPv6 address.
+fn grid_ks(kind: Kind) -> &'static [u32] { match kind { Kind::As => &[7, 8, 15, 16, 24, 31], Kind::V4 => &[8, 16, 24], Kind::V6 => &[8, 16, 32, 64, 96] } }
+fn grid_group(kind: Kind) -> &'static str { match kind { Kind::As => "asgrid", Kind::V4 => "v4grid", Kind::V6 => "v6grid" } }
+
+/// The points of the three placements of the 2^k grid (S = 2^k, every point is m*S or m*S - 1):
+/// a = at zero {0, S-1, S, 2S-1, 2S}; b = {2S-1, 2S, 3S-1, 3S, 4S-1, 4S}; c = at the top
+/// {MAX-2S, MAX-2S+1, MAX-S, MAX-S+1, MAX}; `wide` = a and b together (construction only).
+/// Points beyond the number space are dropped.
+fn grid_points(kind: Kind, k: u32) -> [Vec<u128>; 4] {
+    let s = 1u128 << k; let max = kind.fam_max();
+    let keep = |v: Vec<Option<u128>>| -> Vec<u128> { let mut v: Vec<u128> = v.into_iter().flatten().filter(|x| *x <= max).collect(); v.sort(); v.dedup(); v };
+    let m = |n: u128| s.checked_mul(n);
+    let a = keep(vec![Some(0), Some(s - 1), Some(s), m(2).map(|x| x - 1), m(2)]);
+    let b = keep(vec![m(2).map(|x| x - 1), m(2), m(3).map(|x| x - 1), m(3), m(4).map(|x| x - 1), m(4)]);
+    let c = keep(vec![m(2).and_then(|x| max.checked_sub(x)), m(2).and_then(|x| max.checked_sub(x)).map(|x| x + 1), max.checked_sub(s), max.checked_sub(s).map(|x| x + 1), Some(max)]);
+    let mut wide = a.clone(); wide.extend(&b); wide.sort(); wide.dedup();
+    [a, b, c, wide]
+}
+
+/// The value-pattern domains of one family: for every k, the placements that add points.
+fn grid_doms(kind: Kind) -> Vec<Dom> {
+    let mut out = Vec::new();
+    for &k in grid_ks(kind) {
+        let pts = grid_points(kind, k);
+        let mut seen: Vec<&Vec<u128>> = Vec::new();
+        for (i, tag) in ["a", "b", "c"].iter().enumerate() {
+            let p = &pts[i];
+            if p.len() < 3 || seen.iter().any(|q| p.iter().all(|x| q.contains(x))) { continue }
+            seen.push(p);
+            let mut d = Dom::from_points(&format!("{}k{k}{tag}", match kind { Kind::As => "as", Kind::V4 => "v4", Kind::V6 => "v6" }), kind, p);
+            d.grid = Some((grid_group(kind), k));
+            out.push(d);
+        }
+    }
+    out
+}
+
+/// Completes the shared spaces of a group once all its domains have run.
+fn finish_group(doms: &[Dom], group: &str, what: &str) {
+    let listing: Vec<serde_json::Value> = doms.iter().map(|d| json!({"domain": d.name, "k": d.grid.map(|g| g.1), "points": d.ends.iter().map(|&i| format!("{:#x}", d.atoms[i].0)).collect::<Vec<_>>(), "alphabet_blocks": d.blocks.len()})).collect();
+    for (name, sp) in GROUP_SPACES.lock().unwrap().iter() {
+        if name.split('.').next() != Some(group) { continue }
+        if name.ends_with(".construct") { sp.set("domains", json!(listing)) }
+        sp.set("domain_count", json!(doms.len()));
+        for d in doms.iter().step_by(doms.len().div_ceil(3).max(1)) { sp.sample_str(|| format!("{}: points {}", d.name, d.ends.iter().map(|&i| d.addr_txt(d.atoms[i].0)).collect::<Vec<_>>().join(" "))) }
+        sp.done(true, &format!("all {} domains of the group ({what}), each to the bound its rule states", doms.len()));
+    }
+}
+
 fn main() {
     let ctx = Ctx::new("C03", "model_checking");
     ctx.assume("the property statement is the specification; a block handed to an API constructor with min > max is outside its quantifier (observed, not judged), the same block arriving as text or DER must be rejected");
     ctx.assume("a BER spelling of an RFC 3779 value (non-zero unused bits, long or indefinite lengths, constructed bit strings) may be refused; if it is accepted it must denote the same set as the DER spelling");
     ctx.assume("std's Ipv4Addr/Ipv6Addr text form, serde_json and the independent DER encoder (engine::der) are trusted");
+    ctx.assume("the errors of verify_issued(Refuse) / verify_covered read 'overclaimed <family> resources: <blocks>' (their doc comments only say the resources 'are not covered by its issuer'); the blocks are judged as what the words say, the claimed resources the issuer does not hold, in any spelling that parses to that set; a message without a block list is counted, not judged");
     let thorough = ctx.tier.is_thorough();
     let n = ctx.tier.pick(3, 4);
 
@@ -3166,6 +3415,24 @@ fn main() {
         handed_out(&ctx, dom, &res.have);
         display_params(&ctx, dom, &res.have);
         if dom.kind.is_ip() { ber_spellings(&ctx, dom) }
+        refusals(&ctx, dom, &res.have);
+    }
+    // the value-pattern dimension: the same layers over points m*2^k and m*2^k - 1 for every k the
+    // representation singles out, placed at zero, in the middle and at the top of the number space
+    for kind in [Kind::As, Kind::V4, Kind::V6] {
+        let grid = grid_doms(kind);
+        grid.par_iter().for_each(|dom| {
+            let seeds = construct(&ctx, dom, n);
+            let res = closure(&ctx, dom, seeds);
+            queries(&ctx, dom, &res.have);
+            choice_forms(&ctx, dom, &res.have);
+            api_variants(&ctx, dom);
+            handed_out(&ctx, dom, &res.have);
+            display_params(&ctx, dom, &res.have);
+            if dom.kind.is_ip() { ber_spellings(&ctx, dom) }
+            refusals(&ctx, dom, &res.have);
+        });
+        finish_group(&grid, grid_group(kind), &format!("k in {:?} x placements a (at zero), b (multiples 2..4), c (at the top)", grid_ks(kind)));
     }
     bit_strings(&ctx);
     for (kind, name) in [(Kind::As, "as"), (Kind::V4, "v4"), (Kind::V6, "v6")] { scale(&ctx, kind, name) }
@@ -3178,6 +3445,15 @@ fn main() {
         for (name, kind) in [("as14", Kind::As), ("v4x14", Kind::V4), ("v6x14", Kind::V6)] {
             let dom = Dom::from_points(name, kind, &boundary(kind, 8, 6));
             let _ = construct(&ctx, &dom, 3);
+        }
+        // the 2^k grid with the multiples 0..4 in one domain (13 coverable atoms), construction only
+        for kind in [Kind::As, Kind::V4, Kind::V6] {
+            let wide: Vec<Dom> = grid_ks(kind).iter().filter_map(|&k| {
+                let p = grid_points(kind, k); if p[3].len() <= p[0].len() { return None }
+                let mut d = Dom::from_points(&format!("{}k{k}w", match kind { Kind::As => "as", Kind::V4 => "v4", Kind::V6 => "v6" }), kind, &p[3]);
+                d.grid = Some((match kind { Kind::As => "asgridw", Kind::V4 => "v4gridw", Kind::V6 => "v6gridw" }, k)); Some(d) }).collect();
+            wide.par_iter().for_each(|dom| { let _ = construct(&ctx, dom, 3); });
+            finish_group(&wide, wide[0].grid.unwrap().0, "every k, the points 0, S-1, S, ..., 4S-1, 4S in one domain");
         }
         resource_set(&ctx, &[0, 1, u32::MAX as u128], &[0, 1, u128::MAX], 2);
     } else {
